@@ -73,7 +73,7 @@ L0_PROPS = ("C01", "C02", "C03", "C06", "C10", "C11")
 def l0_tie(res):
     """C01 C02 C03 C06 C10 C11: the L0 whole-formatter model (Fmt0.format0, extracted) against the binary, byte for byte, on programs
     of the fragment in arbitrary layout (call sugar included) under four configurations each: line endings x indentation, with a
-    quote style, a call_parentheses and a space_after_function_names value drawn for each.  Returns (totals, payloads)."""
+    quote style, a call_parentheses, a space_after_function_names and a collapse_simple_statement value drawn for each.  Returns (totals, payloads)."""
     n = 1500 if res.tier == "quick" else 40000
     lines, errs = run_pipeline_sharded(lambda i, k: ([SVH, "l0", "--seed", str(res.seed), "--n", str(n), "--shard", "%d/%d" % (i, k)], [driver("drv_l0")]))
     tot, stats, payloads = {}, {}, []
@@ -84,7 +84,7 @@ def l0_tie(res):
             for k, v in parse_kv(l).items(): stats[k] = stats.get(k, 0) + int(v)
         elif l.startswith("BAD") and len(payloads) < 3:
             w = l.split()
-            payloads.append(dict(kind="input", check="L0:" + w[1], case=w[2], family="l0", seed=res.seed, n=n, region="L0 tie (programs of the fragment, 4 configurations: whitespace, quote style, call_parentheses, space_after_function_names)",
+            payloads.append(dict(kind="input", check="L0:" + w[1], case=w[2], family="l0", seed=res.seed, n=n, region="L0 tie (programs of the fragment, 4 configurations: whitespace, quote style, call_parentheses, space_after_function_names, collapse_simple_statement)",
                                  expected="Fmt0.format0 (extracted) = the library's output, byte for byte"))
     if errs or not tot.get("records") or tot.get("records") != stats.get("records"):
         payloads.append(dict(kind="obligation", obligation=dict(correspondence="L0 tie", log="; ".join(errs) or "record count mismatch")))
